@@ -477,6 +477,11 @@ def run_case(case, ses):
     P = CProg(fp, 'x')
     D = CProg(fd, 'y')
     ses.stats.programs += 1
+    if any(t != 'C' for t in P.vtype) and (P.qmat or P.xmat):
+        # the property is about continuous programs; for a mixed-integer conic program do_math(primal=False) is the dual
+        # of the continuous relaxation (RSOME warns), whose value is not minus the integer optimum
+        ses.stats.kinds['mixed-integer-conic-skipped'] = ses.stats.kinds.get('mixed-integer-conic-skipped', 0) + 1
+        return
     if P.xmat or D.xmat or P.lmi:
         if P.lmi:
             ses.stats.notes.append('%s: LMI blocks - outside the bound' % name)
